@@ -4,7 +4,6 @@ import (
 	"bytes"
 	"errors"
 	"fmt"
-	"io"
 	"os"
 	"os/exec"
 	"path/filepath"
@@ -285,29 +284,23 @@ func RunCommand(cmdArgs []string, runDir string) (map[string]interface{}, error)
 		cmd.Dir = runDir
 	}
 
-	stderrPipe, err := cmd.StderrPipe()
-	if err != nil {
-		return nil, err
-	}
-	stdoutPipe, err := cmd.StdoutPipe()
-	if err != nil {
-		return nil, err
-	}
+	// Capture both streams into buffers, which are filled concurrently while
+	// the command runs. Reading two pipes one after the other would block
+	// forever, as soon as the command fills the pipe that is read second.
+	var stdout, stderr bytes.Buffer
+	cmd.Stdout = &stdout
+	cmd.Stderr = &stderr
 
 	if err := cmd.Start(); err != nil {
 		return nil, err
 	}
 
-	// TODO: duplicate stdout, stderr
-	stdout, _ := io.ReadAll(stdoutPipe)
-	stderr, _ := io.ReadAll(stderrPipe)
-
 	retVal := waitErrToExitCode(cmd.Wait())
 
 	return map[string]interface{}{
 		"return-value": float64(retVal),
-		"stdout":       string(stdout),
-		"stderr":       string(stderr),
+		"stdout":       stdout.String(),
+		"stderr":       stderr.String(),
 	}, nil
 }
 
